@@ -253,6 +253,23 @@ struct FDrv {
         pred2("islessgreater", [](V a, V b) { return avel::islessgreater(a, b); });
         pred2("isunordered", [](V a, V b) { return avel::isunordered(a, b); });
     }
+    // C03: mask(vector) for floats (compares unequal to zero) and Vector(mask) (1.0 / 0.0)
+    void fmask() {
+        pred1("nz", [](V a) { return M(a); });
+        unsigned phase = 0;
+        set_label(tn, "b2v");
+        for_single_batches([&](const A&) {
+            std::array<bool, N> mb;
+            for (unsigned j = 0; j < N; ++j) mb[j] = (((j * 5 + phase) >> (phase % 4)) & 1) != 0;
+            ++phase;
+            if (phase > 64) return;
+            A rv{};
+            int sg = guarded([&] { rv = avel::to_array(V(M(mb))); });
+            for (unsigned j = 0; j < N; ++j)
+                emit(Fact("b2v", 'f').num("m", mb[j]).val("r", sg ? S(0) : rv[j]).signal(sg), tn, int(j), "op");
+        });
+    }
+
     // byteswap is missing for some float vectors (a C19 matter): call it where it exists
     template<class VV, class = void>
     struct has_byteswap : std::false_type {};
@@ -516,6 +533,7 @@ int main(int argc, char** argv) {
     {                                              \
         FDrv<avel::vec##X> d(#X, seed);            \
         if (family == "fcmp") d.fcmp();            \
+        else if (family == "fmask") d.fmask();     \
         else dispatch(d, family);                  \
     }
         if (!std::getenv("VH_SCALAR_ONLY")) {
